@@ -1,4 +1,5 @@
 import Nsq.Props.C19Ops
+import Nsq.Proofs.ToFileTrack
 /-!
 # C19 — step-wise "no overwrite" and the tool over whole runs (audit round 7, item C29)
 
@@ -6,8 +7,9 @@ import Nsq.Props.C19Ops
 that appear later — created by other processes (`Ev.ext`) or by the tool itself. Here the anchor is the directory
 after *any prefix* of the run: every file that exists then keeps its name and its bytes as a prefix for the rest of
 the run, and with O_EXCL every file that is not behind the open descriptor stays byte-identical.
-Not covered (and not claimed): a pre-existing file in a separate *work* dir in plain append mode may be opened,
-appended to and moved to the output dir by the tool (its bytes stay a prefix, its name changes work → output).
+Files in a separate *work* dir may be appended to (plain append mode) and are moved to the output dir by the tool:
+`files_grow_or_move` covers them too — between any two points of a run every file is still there with its old bytes as
+a prefix, under its name or moved work dir → output dir (no `Cfg.WF`, no finiteness needed).
 
 `toolRun` lifts the tool-level step (router behind go-nsq's `max_attempts` give-up) to a list of deliveries; the
 decision `tool_safe_iff` is restated over whole runs.
@@ -65,6 +67,29 @@ theorem no_overwrite_stepwise_append (c : Cfg) (hwf : c.WF) (hx : c.excl = false
     (hp : (run c io (init fs0) before).fs.get p = some f) (hk : p.out = true ∨ c.workDir = false) :
     ∃ f', (run c io (init fs0) (before ++ after)).fs.get p = some f' ∧ (∃ x, f'.data = f.data ++ x) ∧ f.durable ≤ f'.durable :=
   (no_overwrite_stepwise c hwf io fs0 hdom before after p f hp (fun h => by rw [hx] at h; cases h)).1 hk
+
+/-- **Nothing is lost, step-wise, work dir included.** Split any run at any point. Every file that exists after
+`before` — pre-existing, dropped by another process, created by the tool; output dir or work dir; open or closed —
+exists at the end with its old decodable bytes as a prefix and at least its old durable length, under the same name or
+(a work-dir file) moved by the tool into the output dir. Every configuration, event list, fault schedule. -/
+theorem files_grow_or_move (c : Cfg) (io : Nat → Fault) (fs0 : FS) (before after : List (Ev × Bool)) (p : Path) (f : File)
+    (hp : (run c io (init fs0) before).fs.get p = some f) :
+    ∃ q f', (run c io (init fs0) (before ++ after)).fs.get q = some f' ∧ (∃ x, f'.data = f.data ++ x) ∧
+      f.durable ≤ f'.durable ∧ (q = p ∨ (p.out = false ∧ q.out = true)) := by
+  rw [run_append]
+  obtain ⟨q, f', hq, hle, hmv⟩ :=
+    Nsq.Proofs.ToFileTrack.grown_run io after _ (inv_run io before _ (inv_init c fs0)) p f hp
+  exact ⟨q, f', hq, hle.1, hle.2, hmv⟩
+
+/-- … and without a separate work dir nothing is ever renamed: the name is kept -/
+theorem files_grow_in_place (c : Cfg) (hwd : c.workDir = false) (io : Nat → Fault) (fs0 : FS) (before after : List (Ev × Bool))
+    (p : Path) (f : File) (hp : (run c io (init fs0) before).fs.get p = some f) (hpo : p.out = true) :
+    ∃ f', (run c io (init fs0) (before ++ after)).fs.get p = some f' ∧ (∃ x, f'.data = f.data ++ x) ∧ f.durable ≤ f'.durable := by
+  have _ := hwd
+  obtain ⟨q, f', hq, hx, hd, hmv⟩ := files_grow_or_move c io fs0 before after p f hp
+  cases hmv with
+  | inl e => subst e; exact ⟨f', hq, hx, hd⟩
+  | inr m => rw [hpo] at m; cases m.1
 
 /-! ### the tool over a whole run of deliveries -/
 
@@ -146,6 +171,12 @@ example : ((run cfgGzWork noFault (init FS.empty) evA).fs.get ⟨true, "x", 0⟩
     ∧ ((run cfgGzWork noFault (init FS.empty) evA).fs.get ⟨true, "t<REV>.log", 0⟩).isSome = true
     ∧ (run cfgGzWork noFault (init FS.empty) evA).hasOut = true := by decide
 example : DomOk FS.empty := fun _ hp => absurd rfl hp
+/-- a work file really is moved: after the message it is `w/…`, after the HUP `o/…` with the same bytes -/
+example : ((run cfgGzWork noFault (init FS.empty) [(.msg m1 100 "t<REV>.log", false)]).fs.get ⟨false, "t<REV>.log", 0⟩).map (·.data)
+      = some [104, 105, 10]
+    ∧ ((run cfgGzWork noFault (init FS.empty) [(.msg m1 100 "t<REV>.log", false), (.hup, false)]).fs.get ⟨false, "t<REV>.log", 0⟩) = none
+    ∧ ((run cfgGzWork noFault (init FS.empty) [(.msg m1 100 "t<REV>.log", false), (.hup, false)]).fs.get ⟨true, "t<REV>.log", 0⟩).map (·.data)
+      = some [104, 105, 10] := by decide
 /-- … and the exception is real: in O_EXCL mode the open file does change -/
 example : ((run cfgGzWork noFault (init FS.empty) [(.msg m1 100 "t<REV>.log", false)]).fs.get ⟨false, "t<REV>.log", 0⟩).map (·.content)
       ≠ ((run cfgGzWork noFault (init FS.empty) [(.msg m1 100 "t<REV>.log", false), (.msg m2 200 "t<REV>.log", false)]).fs.get
